@@ -23,6 +23,7 @@ import (
 	"math/rand"
 	"reflect"
 	"sort"
+	"strconv"
 	"strings"
 	"sync"
 	"time"
@@ -109,6 +110,16 @@ type c01In struct {
 	// kind wire: a document that is not the encoding of a value, decoded into the type Into
 	Doc  *c01Tree `json:"doc,omitempty"`
 	Into string   `json:"into,omitempty"`
+	// kind reflect, edge family: the IntSlot-th integer position of the (fully set) value holds
+	// IntVal, a value at an edge of the position's Go type or of a narrower integer type
+	IntSlot *int   `json:"intslot,omitempty"`
+	IntVal  string `json:"intval,omitempty"`
+	// kind reflect, wide family: every slice of the (fully set) value has Wide elements.
+	// kind wide: a stanza of kind Wrap that carries N extensions of GoType (seeds Seed..), by
+	// itself or (Nested) as the stanza forwarded by a delegation in an outer message
+	Wide   int  `json:"wide,omitempty"`
+	N      int  `json:"n,omitempty"`
+	Nested bool `json:"nested,omitempty"`
 }
 
 // c01Tree: an element tree as Model/XmlPrint.v has them (Text != "" or !Elem: character data)
@@ -144,7 +155,7 @@ func (c01) Workers() int  { return 8 }
 // down (fatal stack overflow in the recursive Node encoder) is found again by the driver.
 func (c01) Journal() bool { return true }
 func (c01) Rule() string {
-	return "exhaustive: 3 stanza kinds x 2^5 presence patterns of type/id/from/to/lang x {no child, each child alone}; random: text fields from a pool (ASCII, each XML metacharacter alone and mixed, ]]>, blank-padded, TAB/LF/CR, non-ASCII, astral, 2 kB), Err with code 0/non-zero x fields empty/set, generic Node trees depth<=5 width<=4 with attributes and namespaces, registered extensions (subsets, order, repetition) filled by reflection, SM/SASL-auth/handshake elements; oracle-only reflection cases for every registered type and the SM/SASL/handshake elements, alone and inside its stanza kind; oracle-only subset sweep over which optional fields of each such type are set (every optional position at depth <= 3 is a slot: all-unset, all-set, every slot alone, every slot alone unset, all 2^k patterns when k <= 5 and all 2^g patterns of every group of <= 5 sibling fields with the rest unset / set; pointers nil/non-nil, strings empty/non-empty, numbers zero/non-zero, time.Time zero/non-zero, slices empty/non-empty); oracle-only: a generic payload nested 600000 levels deep (marshal, unmarshal, marshal), generic nodes with namespace-qualified attributes; oracle-only noise cases: every registered type inside its stanza kind with unknown children and same-named descendants (of the extension, of the enclosing element, of the stanza, of the core children) injected at random places of the extension's bytes, typed fields compared with the clean decode; texts with characters outside the XML range in every text position (they must come back as U+FFFD and change nothing else); names at the edges of encoding/xml's name grammar, measured on the decoder (every ASCII character and both sides of every edge of the start / continuation sets, alone, after a letter, between letters): accepted names as element names, attribute names and error conditions (must round trip), refused names one per case as a condition (Marshal must refuse) and as generic node / attribute names (model/code comparison only); stanza values that carry an XMLName (jabber:client and others: must make no difference); wire documents that are not the encoding of a value (stanzas in jabber:client / jabber:component:accept / no namespace with known, foreign, unknown and repeated children, numbers and booleans with white space and signs, wrong root names, random trees) decoded into every type: compared with the model's dec, and the parsed value must survive its own round trip; domain: an IQ whose Error pointer is non-nil and points to the all-empty Err is excluded (written as nothing, read back as nil; kept as a hypothesis of the theorem, wf_iq), generated only as an out-of-domain model/code comparison, as are a condition called text and generic nodes that are not namespace-explicit; distinct = kind + presence pattern of every field + text class + tree shape; non-trivial = at least one non-empty field besides the kind"
+	return "exhaustive: 3 stanza kinds x 2^5 presence patterns of type/id/from/to/lang x {no child, each child alone}; random: text fields from a pool (ASCII, each XML metacharacter alone and mixed, ]]>, blank-padded, TAB/LF/CR, non-ASCII, astral, 2 kB), Err with code 0/non-zero x fields empty/set, generic Node trees depth<=5 width<=4 with attributes and namespaces, registered extensions (subsets, order, repetition) filled by reflection, SM/SASL-auth/handshake elements; oracle-only reflection cases for every registered type and the SM/SASL/handshake elements, alone and inside its stanza kind; oracle-only subset sweep over which optional fields of each such type are set (every optional position at depth <= 3 is a slot: all-unset, all-set, every slot alone, every slot alone unset, all 2^k patterns when k <= 5 and all 2^g patterns of every group of <= 5 sibling fields with the rest unset / set; pointers nil/non-nil, strings empty/non-empty, numbers zero/non-zero, time.Time zero/non-zero, slices empty/non-empty); oracle-only: a generic payload nested 600000 levels deep (marshal, unmarshal, marshal), generic nodes with namespace-qualified attributes; oracle-only noise cases: every registered type inside its stanza kind with unknown children and same-named descendants (of the extension, of the enclosing element, of the stanza, of the core children) injected at random places of the extension's bytes, typed fields compared with the clean decode; texts with characters outside the XML range in every text position (they must come back as U+FFFD and change nothing else); names at the edges of encoding/xml's name grammar, measured on the decoder (every ASCII character and both sides of every edge of the start / continuation sets, alone, after a letter, between letters): accepted names as element names, attribute names and error conditions (must round trip), refused names one per case as a condition (Marshal must refuse) and as generic node / attribute names (model/code comparison only); stanza values that carry an XMLName (jabber:client and others: must make no difference); wire documents that are not the encoding of a value (stanzas in jabber:client / jabber:component:accept / no namespace with known, foreign, unknown and repeated children, numbers and booleans with white space and signs, wrong root names, random trees) decoded into every type: compared with the model's dec, and the parsed value must survive its own round trip; domain: an IQ whose Error pointer is non-nil and points to the all-empty Err is excluded (written as nothing, read back as nil; kept as a hypothesis of the theorem, wf_iq), generated only as an out-of-domain model/code comparison, as are a condition called text and generic nodes that are not namespace-explicit; integer edges: every integer position of the core, of every registered type and of the stream elements (fully set value) at both sides of the edges of its own Go type and of every narrower width (int8/16/32/64, uint8/16/32/64); wide values: every slice of every such type with 32 and 65 elements (thorough: 31, 32, 33, 64, 65, 300), and stanzas carrying 1, 31, 32, 33, 64, 65 extensions of every registered message / presence extension type, alone and as the stanza forwarded by a delegation in an outer message; distinct = kind + presence pattern of every field + text class + tree shape; non-trivial = at least one non-empty field besides the kind"
 }
 
 // ---------------------------------------------------------------- pools
@@ -1971,6 +1982,12 @@ func c01PathName(kind, path string) string {
 
 func (c01) Oracle(inp interface{}, obs Sx) (string, string) {
 	in := inp.(c01In)
+	if in.Kind == "reflect" && (in.IntSlot != nil || in.Wide > 0) {
+		return c01ShapedRoundTrip(in)
+	}
+	if in.Kind == "wide" {
+		return c01WideRoundTrip(in)
+	}
 	if in.Kind == "reflect" {
 		return c01ReflectRoundTrip(in.GoType, in.Seed, in.Wrap, in.Mask)
 	}
@@ -2128,6 +2145,18 @@ func (c01) Key(inp interface{}) (string, bool) {
 	if in.Kind == "deepnode" || in.Kind == "qattr" || in.Kind == "cmdnote" || in.Kind == "wire" {
 		raw, _ := json.Marshal(in)
 		return string(raw), true
+	}
+	if in.Kind == "wide" {
+		hist(fmt.Sprintf("wide-extensions:n=%d nested=%v", in.N, in.Nested))
+		return fmt.Sprintf("wide/%s/%s/%d/%d/%v", in.GoType, in.Wrap, in.Seed, in.N, in.Nested), true
+	}
+	if in.Kind == "reflect" && in.IntSlot != nil {
+		hist("int-edge:" + in.GoType)
+		return fmt.Sprintf("edge/%s/%s/%d/%s", in.GoType, in.Wrap, *in.IntSlot, in.IntVal), true
+	}
+	if in.Kind == "reflect" && in.Wide > 0 {
+		hist(fmt.Sprintf("wide-slices:n=%d", in.Wide))
+		return fmt.Sprintf("wideslice/%s/%s/%d/%d", in.GoType, in.Wrap, in.Seed, in.Wide), true
 	}
 	if in.Kind == "reflect" || in.Kind == "noise" {
 		hist(in.Kind + ":" + in.GoType + map[bool]string{true: "", false: " in " + in.Wrap}[in.Wrap == ""])
@@ -2326,6 +2355,29 @@ func (c01) Gen(r *rand.Rand, tier string) []interface{} {
 		add(c01In{Kind: "smresumed", PrevId: t})
 		add(c01In{Kind: "saslauth", Mechanism: t, Value: t})
 		add(c01In{Kind: "handshake", Value: t})
+	}
+	// integer fields of the modelled core at both sides of the edges of their Go type and of
+	// every narrower width (the same family over the registered types: c01GenEdgesAndWide)
+	for i, val := range c01EdgeValues(64, true) {
+		code, _ := strconv.ParseInt(val, 10, 64)
+		add(c01In{Kind: []string{"message", "presence", "iq"}[i%3], Type: "error", Err: &c01Err{Code: int(code), Type: "cancel", Reason: "conflict"}})
+	}
+	for _, val := range c01EdgeValues(8, true) {
+		pr, _ := strconv.ParseInt(val, 10, 64)
+		add(c01In{Kind: "presence", Priority: int(pr), Status: "s"})
+	}
+	for _, val := range c01EdgeValues(64, false) {
+		u, _ := strconv.ParseUint(val, 10, 64)
+		if u >= 1<<63 { // the case format carries int64
+			continue
+		}
+		u1, u2, u3, u4 := u, u, u, u
+		add(c01In{Kind: "smenable", Max: &u1})
+		add(c01In{Kind: "smenabled", SId: "i", MaxU: u})
+		add(c01In{Kind: "smanswer", HU: u})
+		add(c01In{Kind: "smresume", PrevId: "p", H: &u2})
+		add(c01In{Kind: "smresumed", PrevId: "p", H: &u3})
+		add(c01In{Kind: "smfailed", H: &u4})
 	}
 	c01GenNames(tier, add)
 	c01GenWire(r, tier, add)
@@ -2557,6 +2609,7 @@ func (c01) Gen(r *rand.Rand, tier string) []interface{} {
 			add(c01In{Kind: "noise", GoType: e.GoType, Seed: int64(s), Wrap: []string{"presence", "message", "iq"}[e.Kind]})
 		}
 	}
+	c01GenEdgesAndWide(tier, regs, add)
 	return out
 }
 
@@ -2834,7 +2887,7 @@ func c01NoiseRoundTrip(goType string, seed int64, wrap string) (msg, sig string)
 }
 
 func c01OracleOnly(kind string) bool {
-	return kind == "reflect" || kind == "noise" || kind == "deepnode" || kind == "qattr" || kind == "cmdnote"
+	return kind == "reflect" || kind == "noise" || kind == "deepnode" || kind == "qattr" || kind == "cmdnote" || kind == "wide"
 }
 
 // c01DeepRoundTrip: an iq whose generic payload is nested depth levels deep: marshal, unmarshal,
@@ -3105,5 +3158,296 @@ func c01GenWire(r *rand.Rand, tier string, add func(c01In)) {
 			doc.Local = into
 		}
 		w(into, doc)
+	}
+}
+
+// ---------------------------------------------------------------- integer edges and wide values
+
+// c01AllSet: the value of the type with every optional position set (the all-ones mask)
+func c01AllSet(goType string, seed int64) (reflect.Value, bool) {
+	return c01NewFilledMask(goType, seed, strings.Repeat("1", len(c01Slots(goType))+1))
+}
+
+// c01IntLeaves: every integer position of a value, in order: fields of integer kind, NullableInt,
+// through structs, non-nil pointers and interfaces, slice elements. set(x) stores x there (false:
+// x does not fit the position's type).
+func c01IntLeaves(v reflect.Value, depth int, visit func(bits int, signed bool, set func(x int64, ux uint64) bool)) {
+	if depth > 8 {
+		return
+	}
+	switch v.Kind() {
+	case reflect.Ptr, reflect.Interface:
+		if !v.IsNil() {
+			c01IntLeaves(v.Elem(), depth+1, visit)
+		}
+	case reflect.Slice:
+		for i := 0; i < v.Len(); i++ {
+			c01IntLeaves(v.Index(i), depth+1, visit)
+		}
+	case reflect.Struct:
+		t := v.Type()
+		if t == c01NullIntT {
+			if v.CanSet() {
+				visit(strconv.IntSize, true, func(x int64, _ uint64) bool {
+					v.Set(reflect.ValueOf(stanza.NewNullableInt(int(x))))
+					return true
+				})
+			}
+			return
+		}
+		if t == c01TimeT || t == c01NameT || t == c01ForwardedT {
+			return
+		}
+		for i := 0; i < t.NumField(); i++ {
+			f := t.Field(i)
+			if name, _ := c01TagInfo(f); f.PkgPath != "" || name == "-" {
+				continue
+			}
+			c01IntLeaves(v.Field(i), depth+1, visit)
+		}
+	case reflect.Int, reflect.Int8, reflect.Int16, reflect.Int32, reflect.Int64:
+		if v.CanSet() {
+			visit(v.Type().Bits(), true, func(x int64, _ uint64) bool {
+				if v.OverflowInt(x) {
+					return false
+				}
+				v.SetInt(x)
+				return true
+			})
+		}
+	case reflect.Uint, reflect.Uint8, reflect.Uint16, reflect.Uint32, reflect.Uint64:
+		if v.CanSet() {
+			visit(v.Type().Bits(), false, func(_ int64, ux uint64) bool {
+				if v.OverflowUint(ux) {
+					return false
+				}
+				v.SetUint(ux)
+				return true
+			})
+		}
+	}
+}
+
+// c01EdgeValues: both sides of the edges of every integer width up to the position's own
+func c01EdgeValues(bits int, signed bool) []string {
+	var out []string
+	if signed {
+		out = append(out, "0", "1", "-1")
+		for _, w := range []uint{8, 16, 32, 64} {
+			if int(w) > bits {
+				break
+			}
+			hi := int64(1)<<(w-1) - 1
+			lo := -hi - 1
+			out = append(out, strconv.FormatInt(hi, 10), strconv.FormatInt(lo, 10))
+			if int(w) < bits { // just outside the narrower type, and the unsigned edge of that width
+				out = append(out, strconv.FormatInt(hi+1, 10), strconv.FormatInt(lo-1, 10), strconv.FormatInt(int64(1)<<w-1, 10), strconv.FormatInt(int64(1)<<w, 10))
+			} else {
+				out = append(out, strconv.FormatInt(hi-1, 10), strconv.FormatInt(lo+1, 10))
+			}
+		}
+		return out
+	}
+	out = append(out, "0", "1")
+	for _, w := range []uint{8, 16, 32, 64} {
+		if int(w) > bits {
+			break
+		}
+		hi := ^uint64(0) >> (64 - w)
+		out = append(out, strconv.FormatUint(hi, 10), strconv.FormatUint(hi>>1, 10), strconv.FormatUint(hi>>1+1, 10))
+		if int(w) < bits {
+			out = append(out, strconv.FormatUint(hi+1, 10))
+		} else {
+			out = append(out, strconv.FormatUint(hi-1, 10))
+		}
+	}
+	return out
+}
+
+// c01CountIntLeaves: integer positions of the all-set value of a type, with width and sign
+func c01CountIntLeaves(goType string) (bits []int, signed []bool) {
+	p, ok := c01AllSet(goType, 7)
+	if !ok {
+		return
+	}
+	c01IntLeaves(p, 0, func(b int, s bool, _ func(int64, uint64) bool) { bits, signed = append(bits, b), append(signed, s) })
+	return
+}
+
+// c01Widen: every slice of the value gets n elements
+func c01Widen(v reflect.Value, n int, r *rand.Rand, depth int) {
+	if depth > 6 {
+		return
+	}
+	switch v.Kind() {
+	case reflect.Ptr, reflect.Interface:
+		if !v.IsNil() {
+			c01Widen(v.Elem(), n, r, depth+1)
+		}
+	case reflect.Struct:
+		t := v.Type()
+		if c01IsLeafStruct(t) {
+			return
+		}
+		for i := 0; i < t.NumField(); i++ {
+			f := t.Field(i)
+			name, flags := c01TagInfo(f)
+			if f.PkgPath != "" || name == "-" || !v.Field(i).CanSet() {
+				continue
+			}
+			fv := v.Field(i)
+			if fv.Kind() == reflect.Slice && fv.Type().Elem().Kind() != reflect.Uint8 {
+				if fv.Type().Elem().Kind() == reflect.Interface && c01Impls[fv.Type().Elem()] == nil {
+					continue
+				}
+				sl := reflect.MakeSlice(fv.Type(), 0, n)
+				for k := 0; k < n; k++ {
+					e := reflect.New(fv.Type().Elem()).Elem()
+					c01NonZero(e, r, flags["innerxml"])
+					sl = reflect.Append(sl, e)
+				}
+				fv.Set(sl)
+				continue // one level: the elements keep the size they were filled with
+			}
+			c01Widen(fv, n, r, depth+1)
+		}
+	}
+}
+
+// c01ShapedRoundTrip: the reflection round trip of a fully set value with one integer position
+// at an edge, or with every slice widened
+func c01ShapedRoundTrip(in c01In) (msg, sig string) {
+	p, ok := c01AllSet(in.GoType, in.Seed)
+	if !ok {
+		return "unknown Go type " + in.GoType, "harness:unknown-type"
+	}
+	what := ""
+	if in.IntSlot != nil {
+		k, done := 0, false
+		c01IntLeaves(p, 0, func(bits int, signed bool, set func(int64, uint64) bool) {
+			if k == *in.IntSlot {
+				x, _ := strconv.ParseInt(in.IntVal, 10, 64)
+				ux, _ := strconv.ParseUint(in.IntVal, 10, 64)
+				done = set(x, ux)
+			}
+			k++
+		})
+		if !done {
+			return "", "" // the position does not exist in this fill or cannot hold the value
+		}
+		what = fmt.Sprintf(" [integer position %d = %s]", *in.IntSlot, in.IntVal)
+	}
+	if in.Wide > 0 {
+		c01Widen(p, in.Wide, rand.New(rand.NewSource(in.Seed+int64(in.Wide))), 0)
+		what += fmt.Sprintf(" [every slice with %d elements]", in.Wide)
+	}
+	msg, sig = c01ValueRoundTrip(in.GoType, p, in.Seed, in.Wrap)
+	if msg != "" {
+		msg += what
+	}
+	return
+}
+
+// c01WideRoundTrip: a stanza with N extensions of one registered type (the slice the property
+// quantifies over: "every subset and order of the registered extensions"), alone or as the
+// stanza a delegation forwards
+func c01WideRoundTrip(in c01In) (msg, sig string) {
+	var exts []interface{}
+	for i := 0; i < in.N; i++ {
+		p, ok := c01NewFilled(in.GoType, in.Seed+int64(i))
+		if !ok {
+			return "unknown Go type " + in.GoType, "harness:unknown-type"
+		}
+		exts = append(exts, p.Interface())
+	}
+	var v, fresh interface{}
+	var inner stanza.Packet
+	switch in.Wrap {
+	case "message":
+		m := stanza.Message{Attrs: stanza.Attrs{Id: "w", Type: "chat"}, Body: "b"}
+		for _, e := range exts {
+			m.Extensions = append(m.Extensions, e)
+		}
+		v, fresh, inner = &m, &stanza.Message{}, m
+	case "presence":
+		m := stanza.Presence{Attrs: stanza.Attrs{Id: "w"}, Status: "s"}
+		for _, e := range exts {
+			m.Extensions = append(m.Extensions, e)
+		}
+		v, fresh, inner = &m, &stanza.Presence{}, m
+	default:
+		return "", ""
+	}
+	if in.Nested {
+		v = &stanza.Message{Attrs: stanza.Attrs{Id: "outer"}, Extensions: []stanza.MsgExtension{&stanza.Delegation{Forwarded: &stanza.Forwarded{Stanza: inner}}}}
+		fresh = &stanza.Message{}
+	}
+	where := fmt.Sprintf("%s with %d x %s (seed %d, forwarded: %v)", in.Wrap, in.N, in.GoType, in.Seed, in.Nested)
+	b1, err := xml.Marshal(v)
+	if err != nil {
+		return where + ": marshal error " + err.Error(), "nonroundtrip:" + in.GoType + ":wide-marshal-error"
+	}
+	if err := xml.Unmarshal(b1, fresh); err != nil {
+		return fmt.Sprintf("%s: unmarshal of %q fails: %v", where, c01Short(b1), err), "nonroundtrip:" + in.GoType + ":wide-unmarshal-error"
+	}
+	if f := c01DiffField(reflect.ValueOf(v), reflect.ValueOf(fresh)); f != "" {
+		return fmt.Sprintf("%s: field %s differs after Unmarshal(Marshal v); bytes %q", where, f, c01Short(b1)), "nonroundtrip:" + in.GoType + ":wide:" + f
+	}
+	b2, err := xml.Marshal(fresh)
+	if err != nil || !bytes.Equal(b1, b2) {
+		return fmt.Sprintf("%s: second marshal differs (%d vs %d bytes, err %v)", where, len(b1), len(b2), err), "nonroundtrip:" + in.GoType + ":wide-bytes"
+	}
+	return "", ""
+}
+
+// c01GenEdgesAndWide: (1) every integer position of every registered type and stream element at
+// both sides of the edges of its own Go type and of every narrower width; (2) every slice of
+// every such type with 32, 33, 64 and 65 elements; (3) stanzas carrying 1, 31, 32, 33, 64, 65
+// extensions of every registered message / presence extension type, alone and as the stanza
+// forwarded by a delegation.
+func c01GenEdgesAndWide(tier string, regs []c01RegEntry, add func(c01In)) {
+	wrapOf := func(e c01RegEntry) string {
+		if e.Local == "*" {
+			return ""
+		}
+		return []string{"presence", "message", "iq"}[e.Kind]
+	}
+	type tw struct{ t, wrap string }
+	var types []tw
+	seen := map[string]bool{}
+	for _, e := range regs {
+		if !seen[e.GoType+"/"+wrapOf(e)] {
+			seen[e.GoType+"/"+wrapOf(e)] = true
+			types = append(types, tw{e.GoType, wrapOf(e)})
+		}
+	}
+	for _, t := range c01StreamEl {
+		types = append(types, tw{t, ""})
+	}
+	for _, x := range types {
+		bits, signed := c01CountIntLeaves(x.t)
+		for k := range bits {
+			k := k
+			for _, val := range c01EdgeValues(bits[k], signed[k]) {
+				add(c01In{Kind: "reflect", GoType: x.t, Seed: 7, Wrap: x.wrap, IntSlot: &k, IntVal: val})
+			}
+		}
+		widths := []int{32, 65}
+		if tier == "thorough" {
+			widths = []int{31, 32, 33, 64, 65, 300}
+		}
+		for _, w := range widths {
+			add(c01In{Kind: "reflect", GoType: x.t, Seed: 7, Wrap: x.wrap, Wide: w})
+		}
+	}
+	for _, e := range regs {
+		if e.Local == "*" || e.Kind == 2 {
+			continue
+		}
+		for _, n := range []int{1, 31, 32, 33, 64, 65} {
+			for _, nested := range []bool{false, true} {
+				add(c01In{Kind: "wide", GoType: e.GoType, Seed: 11, Wrap: []string{"presence", "message"}[e.Kind], N: n, Nested: nested})
+			}
+		}
 	}
 }
